@@ -95,8 +95,14 @@ def eol_sensitive(v11, cp):
 
 # events: ("S", name, [(an, av)...]) ("E", name) ("T", s) ("C", s) ("M", s) ("P", target, data); strings = unit lists
 
+def has_surrogate(evs):
+    return any(is_high(u) or is_low(u) for e in evs for x in e[1:] for u in flat_units(x))
+
+
 def script_line(cid, enc, ver, evs):
     parts = [cid, enc, ver]
+    if has_surrogate(evs):
+        parts.append("-L")   # legacy serializer not run: known finding K-new-4 (exception or unbounded allocation)
     for e in evs:
         if e[0] == "S":
             parts += ["S", tok(e[1]), str(len(e[2]))]
@@ -111,6 +117,8 @@ def script_line(cid, enc, ver, evs):
 
 def parse_script(tokens):
     evs, i = [], 0
+    if tokens and tokens[0] == "-L":
+        tokens = tokens[1:]
     while i < len(tokens):
         k = tokens[i]
         if k == "S":
@@ -194,12 +202,12 @@ def classify(enc, ver, evs):
                         rep = False
                     if kind != "name" and eol_sensitive(v11, cp):
                         rep = False
-                        cls.add("K22")
+                        cls.add("K-new-1")
                 elif kind == "cdata":
                     if eol_sensitive(v11, cp):
-                        cls.add("K22")
+                        cls.add("K-new-1")
                     if restricted(v11, cp):
-                        cls.add("K23")
+                        cls.add("K-new-2")
     return rep, cls
 
 
@@ -468,7 +476,7 @@ def evaluate(ctx, cases, impl, model):
             elif newp != expected:
                 what = "output parses to a different tree:\n#     parsed   %s\n#     expected %s" % (newp[:400], expected[:400])
             if what:
-                for k in ("K22", "K23"):
+                for k in ("K-new-1", "K-new-2"):
                     if k in kcls:
                         known = k
         else:
@@ -480,13 +488,13 @@ def evaluate(ctx, cases, impl, model):
                 else:
                     what = None   # the oracle's notion of representable was too strict for this input; nothing wrong observed
                 if what:
-                    for k in ("K7", "K4", "K22"):
+                    for k in ("K7", "K4", "K-new-1"):
                         if k in kcls:
                             known = k
         if what:
             orc.append({"case": line, "what": what, "known": known})
         # ---- the two serializers agree (after parsing) ----
-        if representable and new.startswith("ok:") and not newp.startswith("PARSEERR") and not kcls:
+        if representable and new.startswith("ok:") and not newp.startswith("PARSEERR") and not kcls and old != "skipped":
             lw = None
             if not old.startswith("ok:"):
                 lw = "legacy FormatterToXML failed with %s where the new serializer succeeded" % old
@@ -509,9 +517,16 @@ def legacy_class(enc, ver, evs):
             elif isinstance(x, list):
                 allu += x
     if v11 and any(u in (0x85, 0x2028) or restricted(True, u) for u in allu):
-        return "K24"
-    if any(is_high(u) for u in allu):
-        return "K25"
+        return "K-new-3"
+    if not v11:
+        for e in evs:
+            if e[0] == "T" and 13 in e[1]:
+                return "K-new-5"
+            if e[0] == "S" and any(u in (9, 10, 13) for an, av in e[2] for u in av):
+                return "K-new-5"
+    for e in evs:
+        if e[0] == "C" and any(not enc_can(enc, u) for u in e[1]):
+            return "K-new-6"
     return None
 
 
